@@ -90,18 +90,15 @@ def eval_one(name, tier='quick'):
     pid = meta['property']
     tmp = tempfile.mkdtemp(prefix='vf_eqeval_')
     try:
-        repo = os.path.join(tmp, 'repo')
-        os.makedirs(repo)
-        shutil.copytree(os.path.join(S.REPO, 'plotink'), os.path.join(repo, 'plotink'),
-                        ignore=shutil.ignore_patterns('__pycache__'))
-        rc, out = S.sh(['git', 'apply', '--directory=' + os.path.relpath(repo, tmp),
-                        os.path.join(d, 'patch.diff')], cwd=tmp)
-        if rc:
-            rc, out = S.sh(['patch', '-p1', '-i', os.path.join(d, 'patch.diff')], cwd=repo)
-            if rc:
-                return name, pid, 'PATCH-FAILED', out[-200:]
+        repo, base, msg = S.patched_tree(os.path.join(d, 'patch.diff'), meta, tmp)
+        if repo is None:
+            return name, pid, 'PATCH-FAILED', msg
         rc, out = S.sh([os.path.join(S.VERIF, 'check'), pid, tier, '--repo', repo, '--out',
                         os.path.join(tmp, 'ev')], cwd=S.VERIF)
+        inherited = S.inherited_reports(base)
+        left = [rk for rk in S.reported(out) if rk not in inherited]
+        if rc == 1 and not left:
+            rc = 0      # only the defect fixed in /repo since this refactoring was written
         verdict = {0: 'SILENT', 1: 'FALSE-ALARM', 2: 'CANNOT-CONCLUDE'}.get(rc, 'rc=%d' % rc)
         lines = [l for l in out.strip().splitlines() if l.strip() and 'conda' not in l]
         info = ''
@@ -109,6 +106,10 @@ def eval_one(name, tier='quick'):
             info = ' | '.join(l for l in lines if ': [' in l)[:400]
         elif rc == 2:
             info = ' | '.join(l for l in lines if 'ANALYSIS-ERROR' in l)[:300]
+        if base != 'HEAD':
+            info = (info + ' ' if info else '') + '(on base %s%s)' % (
+                base, '; the inherited defect %s is reported, nothing else'
+                % sorted({r for r, _ in inherited}) if verdict == 'SILENT' else '')
         return name, pid, verdict, info
     finally:
         shutil.rmtree(tmp, ignore_errors=True)
